@@ -501,6 +501,88 @@ impl Model for MatModel {
     }
 }
 
+/// operations in a row on one thread (the main one): (a) sums with an Identity operand over a sequence of sizes that
+/// goes up and down; (b) `is_identity` asked again on the same matrix object after in-place changes
+fn same_thread_sequences(rep: &mut Report, only: Option<&str>) {
+    let sizes = [3usize, 2, 4, 2, 1, 3, 5, 2];
+    for (k, &n) in sizes.iter().enumerate() {
+        for banded in [false, true] {
+            for left in [false, true] {
+                let key = format!("sumseq:{}:{}:{}", k, banded as u8, left as u8);
+                if only.map(|o| o != key).unwrap_or(false) {
+                    continue;
+                }
+                rep.evaluations += 1;
+                rep.validated += 1;
+                let r = guarded(|| {
+                    let dense: Vec<f64> = (0..n * n).map(|q| if banded && ((q / n) as isize - (q % n) as isize).abs() > 1 { 0.0 } else { 0.5 * (q as f64 + 1.0) }).collect();
+                    let other = if banded {
+                        let mut m = Matrix::banded(n, 1.min(n - 1), 1.min(n - 1));
+                        for i in 0..n {
+                            for j in 0..n {
+                                if (i as isize - j as isize).abs() <= 1 {
+                                    m[(i, j)] = dense[i * n + j];
+                                }
+                            }
+                        }
+                        m
+                    } else {
+                        Matrix::from_vec(n, n, dense.clone())
+                    };
+                    let sum = if left { Matrix::identity(n) + other } else { other + Matrix::identity(n) };
+                    let want: Vec<f64> = (0..n * n).map(|q| dense[q] + if q / n == q % n { 1.0 } else { 0.0 }).collect();
+                    disagree(&sum, &want)
+                });
+                let msg = match r {
+                    Ok(None) => continue,
+                    Ok(Some(m)) => m,
+                    Err(p) => format!("panicked: {}", p),
+                };
+                rep.violations.push(Violation::new(&key, "sum-sequence", format!("Identity {} {} of size {} (call {} of the size sequence {:?}): {}", if left { "+" } else { "added to" }, if banded { "a tridiagonal matrix" } else { "a full matrix" }, n, k, sizes, msg), json!({"key": key})).with("constructor", "identity"));
+            }
+        }
+    }
+    for n in 1..=4usize {
+        for kind in 0..2usize {
+            let key = format!("identityasked:{}:{}", n, kind);
+            if only.map(|o| o != key).unwrap_or(false) {
+                continue;
+            }
+            rep.evaluations += 1;
+            rep.validated += 3;
+            let r = guarded(|| -> Option<String> {
+                let mut m = if kind == 0 { Matrix::full(n, n) } else { Matrix::banded(n, n - 1, n - 1) };
+                for i in 0..n {
+                    m[(i, i)] = 1.0;
+                }
+                if !m.is_identity() {
+                    return Some("the unit matrix is not recognised".into());
+                }
+                m[(n - 1, n - 1)] = 2.0;
+                if m.is_identity() {
+                    return Some("still the identity after its last diagonal entry was set to 2".into());
+                }
+                m[(n - 1, n - 1)] = 1.0;
+                if !m.is_identity() {
+                    return Some("not the identity again after the entry was restored".into());
+                }
+                m.component_mul_mut(3.0);
+                if m.is_identity() {
+                    return Some("still the identity after component_mul_mut(3)".into());
+                }
+                None
+            });
+            let msg = match r {
+                Ok(None) => continue,
+                Ok(Some(m)) => m,
+                Err(p) => format!("panicked: {}", p),
+            };
+            rep.violations.push(Violation::new(&key, "identity-asked-again", format!("{} matrix of size {}: is_identity asked repeatedly on one object: {}", if kind == 0 { "full" } else { "banded" }, n, msg), json!({"key": key})).with("constructor", if kind == 0 { "full" } else { "banded" }));
+        }
+    }
+    *rep.tags.entry("same-thread-sequences".into()).or_insert(0) += 1;
+}
+
 /// the documented contract of `Matrix::diagonal`: ml = mu = 0 storage, writable on its diagonal
 fn diag_contract_of(label: &str, n: usize, m: &Matrix) -> Option<String> {
     // the triangular constructors: a band that holds the whole triangle, writable in its far corner
@@ -603,6 +685,18 @@ fn filled_then_written(rep: &mut Report, only: Option<&str>) {
 pub fn run(replay: Option<Value>) -> i32 {
     let mut rep = Report::new("C17", "model_checking");
     if let Some(case) = replay {
+        if let Some(key) = case["key"].as_str().filter(|k| k.starts_with("sumseq") || k.starts_with("identityasked")) {
+            // (the whole sequence is replayed: the verdict of the named step is reported)
+            same_thread_sequences(&mut rep, None);
+            rep.violations.retain(|v| v.key == key);
+            for v in &rep.violations {
+                println!("replay: VIOLATED: {}", v.msg);
+            }
+            if rep.violations.is_empty() {
+                println!("replay: property holds on this sequence");
+            }
+            return if rep.violations.is_empty() { 0 } else { 1 };
+        }
         if let Some(key) = case["key"].as_str().filter(|k| k.starts_with("filled-then-written")) {
             filled_then_written(&mut rep, Some(key));
             for v in &rep.violations {
@@ -657,6 +751,7 @@ pub fn run(replay: Option<Value>) -> i32 {
         vec![(1, 3), (2, 3), (3, 3), (4, 2), (5, 2), (8, 1)]
     };
     filled_then_written(&mut rep, None);
+    same_thread_sequences(&mut rep, None);
     let mut lattice = vec![];
     let mut total_states = 0u64;
     let mut total_by_value = 0u64;
